@@ -715,3 +715,202 @@ Proof.
     split; [split; [exact HS1|eapply sem_same; eauto]|].
     split; [exact Hp1|]. split; [exact Hc1|]. split; [exact Hs|]. exists s0. exact Hs0.
 Qed.
+
+(* ---- leave_room alone ---- *)
+Lemma leave_room_wf m sid ns room :
+  WF m -> room_ok room -> room <> PNone -> WF (leave_room m sid ns room).
+Proof.
+  intros [HS HM] Hr Hn. destruct (leave_room_spec m sid ns room HS Hr) as (HS1 & _ & _ & E).
+  split; [exact HS1|]. eapply sem_remove; eauto.
+  intros ns' r s Hr' G. cbn beta in *.
+  destruct (str_eqb ns ns'); cbn [andb] in *; [|discriminate].
+  destruct (room_eqb room PNone) eqn:E4; [|discriminate].
+  apply room_spec in E4; auto using room_ok_None. contradiction.
+Qed.
+
+(* ---- folds of leave_room (basic_close_room, basic_disconnect) ---- *)
+Definition leave_pairs (ns : str) (L : list (str * pv)) (m : mgr) : mgr :=
+  fold_left (fun m x => leave_room m (fst x) ns (snd x)) L m.
+Definition hit (L : list (str * pv)) (r' : pv) (s' : str) : bool :=
+  existsb (fun x => str_eqb (fst x) s' && room_eqb (snd x) r') L.
+
+Lemma fold_left_map' {A B C} (f : A -> C -> A) (g : B -> C) l a :
+  fold_left f (map g l) a = fold_left (fun a x => f a (g x)) l a.
+Proof. revert a; induction l as [|x l IH]; intros a; cbn [map fold_left]; auto. Qed.
+
+Lemma fold_leave_spec ns L : forall m, Struct m -> Forall (fun x => room_ok (snd x)) L ->
+  let m' := leave_pairs ns L m in
+  Struct m' /\ pending m' = pending m /\ callbacks m' = callbacks m /\
+  rem_eq m m' (fun ns' r' s' => str_eqb ns ns' && hit L r' s').
+Proof.
+  induction L as [|[s r] L IH]; intros m HS HL; unfold leave_pairs; cbn [fold_left fst snd].
+  - split; [exact HS|]. split; [reflexivity|]. split; [reflexivity|].
+    intros ns' r' s' _. cbn [hit existsb]. rewrite andb_false_r. reflexivity.
+  - inversion HL as [|? ? Hr HL']; subst. cbn [snd] in Hr.
+    destruct (leave_room_spec m s ns r HS Hr) as (HS1 & Hp1 & Hc1 & E1).
+    destruct (IH _ HS1 HL') as (HS2 & Hp2 & Hc2 & E2). unfold leave_pairs in *.
+    split; [exact HS2|]. split; [congruence|]. split; [congruence|].
+    intros ns' r' s' Hr'. rewrite E2, E1 by assumption. unfold hit; cbn [existsb fst snd].
+    fold (hit L r' s').
+    destruct (str_eqb ns ns'), (str_eqb s s'), (room_eqb r r'), (hit L r' s'); reflexivity.
+Qed.
+
+(* ---- close_room ---- *)
+Lemma participants_scalar m ns room : room_ok room -> participants m ns room = Ok (look m ns room).
+Proof. intro H. rewrite look_room_of. destruct room; try discriminate H; reflexivity. Qed.
+
+Lemma close_room_unfold m room ns :
+  room_ok room ->
+  close_room m room ns = leave_pairs ns (map (fun se => (fst se, room)) (look m ns room)) m.
+Proof.
+  intro H. unfold close_room. rewrite participants_scalar by exact H.
+  unfold leave_pairs. rewrite fold_left_map'. reflexivity.
+Qed.
+
+Lemma hit_other_room b room r' s' :
+  room_eqb room r' = false -> hit (map (fun se : str * str => (fst se, room)) b) r' s' = false.
+Proof.
+  intro E. induction b as [|x b IH]; [reflexivity|].
+  unfold hit in *. cbn [map existsb fst snd]. rewrite E, andb_false_r. exact IH.
+Qed.
+
+Lemma close_room_eq m room ns :
+  Struct m -> room_ok room ->
+  let m' := close_room m room ns in
+  Struct m' /\ pending m' = pending m /\ callbacks m' = callbacks m /\
+  rem_eq m m' (fun ns' r' _ => str_eqb ns ns' && room_eqb room r').
+Proof.
+  intros HS Hr m'. subst m'. rewrite close_room_unfold by exact Hr.
+  set (L := map (fun se : str * str => (fst se, room)) (look m ns room)).
+  assert (HL : Forall (fun x => room_ok (snd x)) L).
+  { apply Forall_forall. intros x Hx. apply in_map_iff in Hx as (se & <- & _). exact Hr. }
+  destruct (fold_leave_spec ns L m HS HL) as (HS1 & Hp & Hc & E).
+  split; [exact HS1|]. split; [exact Hp|]. split; [exact Hc|].
+  intros ns' r' s' Hr'. rewrite E by assumption.
+  destruct (str_eqb ns ns') eqn:E1; cbn [andb]; [|reflexivity]. apply str_eqb_eq in E1. subst ns'.
+  destruct (room_eqb room r') eqn:E2.
+  - apply room_spec in E2; auto. subst r'.
+    destruct (hit L room s') eqn:Hh; [reflexivity|].
+    destruct (mem m ns room s') as [e|] eqn:Em; [|reflexivity]. exfalso.
+    assert (hit L room s' = true); [|congruence].
+    apply existsb_exists. exists (s', room). split.
+    + apply in_map_iff. exists (s', e). split; [reflexivity|].
+      apply bd_get_in; [apply struct_look, HS|exact Em].
+    + cbn [fst snd]. rewrite str_eqb_refl, room_refl by exact Hr. reflexivity.
+  - unfold L. rewrite hit_other_room by exact E2. reflexivity.
+Qed.
+
+Lemma close_room_wf m room ns : WF m -> room_ok room -> room <> PNone -> WF (close_room m room ns).
+Proof.
+  intros [HS HM] Hr Hn. destruct (close_room_eq m room ns HS Hr) as (HS1 & _ & _ & E).
+  split; [exact HS1|]. eapply sem_remove; eauto.
+  intros ns' r s Hr' G. cbn beta in *.
+  destruct (str_eqb ns ns'); cbn [andb] in *; [|discriminate].
+  apply room_spec in G; auto using room_ok_None. contradiction.
+Qed.
+
+(* ---- mgr_disconnect ---- *)
+Definition disc_names (rm : roommap) (sid : str) : list pv :=
+  map fst (filter (fun rb => match bd_get (snd rb) sid with Some _ => true | None => false end) rm).
+
+Lemma mgr_disconnect_parts m sid ns rm :
+  ns_rooms m ns = Some rm ->
+  let m1 := leave_pairs ns (map (fun r => (sid, r)) (disc_names rm sid)) m in
+  rooms (mgr_disconnect m sid ns) = rooms m1 /\
+  callbacks (mgr_disconnect m sid ns) = adel str_eqb (callbacks m1) sid /\
+  (NoDup (map fst (pending m1)) -> NoDup (map fst (pending (mgr_disconnect m sid ns)))).
+Proof.
+  intros E m1.
+  assert (Hm1 : fold_left (fun m r => leave_room m sid ns r) (disc_names rm sid) m = m1).
+  { unfold m1, leave_pairs. rewrite fold_left_map'. reflexivity. }
+  unfold mgr_disconnect. rewrite E. unfold disc_names in Hm1. rewrite Hm1. clearbody m1.
+  cbv zeta. cbn [rooms pending callbacks].
+  destruct (is_pending _ sid ns); cbn [rooms pending callbacks].
+  - split; [reflexivity|]. split; [reflexivity|]. intro Hp.
+    destruct (match aget str_eqb (pending m1) ns with Some l => remove_first l sid | None => [] end).
+    + apply nodup_adel. exact Hp.
+    + apply (e_nodup_aset str_eqb str_eqb_eq). exact Hp.
+  - split; [reflexivity|]. split; [reflexivity|]. auto.
+Qed.
+
+Lemma disc_names_ok rm sid : rm_ok rm -> Forall room_ok (disc_names rm sid).
+Proof.
+  intros (_ & Hk & _). apply Forall_forall. intros r Hr. unfold disc_names in Hr.
+  apply in_map_iff in Hr as (rb & <- & Hf). apply filter_In in Hf as [Hi _].
+  unfold keysP in Hk. rewrite Forall_forall in Hk. apply Hk. apply in_map. exact Hi.
+Qed.
+Lemma disc_names_complete m ns sid r e :
+  Struct m -> room_ok r -> mem m ns r sid = Some e -> In r (disc_names (nsmap m ns) sid).
+Proof.
+  intros HS Hr H. destruct (struct_nsmap m ns HS) as (Hn & Hk & _).
+  unfold mem, look, agetd in H.
+  destruct (aget room_eqb (nsmap m ns) r) as [b|] eqn:Eb; [|discriminate H].
+  apply (aget_in room_eqb room_ok room_spec) in Eb; auto.
+  unfold disc_names. apply in_map_iff. exists (r, b). split; [reflexivity|].
+  apply filter_In. split; [exact Eb|]. cbn [snd]. rewrite H. reflexivity.
+Qed.
+
+Lemma mgr_disconnect_spec m sid ns :
+  WF m ->
+  let m' := mgr_disconnect m sid ns in
+  WF m' /\ rem_eq m m' (fun ns' _ s' => str_eqb ns ns' && str_eqb sid s') /\
+  (ns_rooms m ns <> None -> callbacks m' = adel str_eqb (callbacks m) sid) /\
+  (ns_rooms m ns = None -> m' = m).
+Proof.
+  intros [HS HM] m'. subst m'.
+  destruct (ns_rooms m ns) as [rm|] eqn:Ens.
+  2: { assert (mgr_disconnect m sid ns = m) as -> by (unfold mgr_disconnect; rewrite Ens; reflexivity).
+       split; [split; assumption|]. split; [|split; [congruence|reflexivity]].
+       intros ns' r' s' _. destruct (str_eqb ns ns' && str_eqb sid s') eqn:C; [|reflexivity].
+       apply andb_true_iff in C as [C1 C2]. apply str_eqb_eq in C1, C2. subst.
+       unfold mem, look, nsmap, agetd. unfold ns_rooms in Ens. rewrite Ens. reflexivity. }
+  assert (Hrm : rm = nsmap m ns) by (unfold nsmap, agetd; unfold ns_rooms in Ens; rewrite Ens; reflexivity).
+  destruct (mgr_disconnect_parts m sid ns rm Ens) as (Er & Ec & Ep).
+  set (L := map (fun r => (sid, r)) (disc_names rm sid)) in *.
+  assert (HL : Forall (fun x => room_ok (snd x)) L).
+  { apply Forall_forall. intros x Hx. apply in_map_iff in Hx as (r & <- & Hi). cbn [snd].
+    pose proof (disc_names_ok rm sid) as Hok. rewrite Hrm in Hok at 1.
+    specialize (Hok (struct_nsmap m ns HS)). rewrite Forall_forall in Hok. auto. }
+  destruct (fold_leave_spec ns L m HS HL) as (HS1 & Hp1 & Hc1 & E1).
+  assert (E : rem_eq m (mgr_disconnect m sid ns) (fun ns' _ s' => str_eqb ns ns' && str_eqb sid s')).
+  { intros ns' r' s' Hr'. rewrite (mem_ext _ _ Er). rewrite E1 by assumption.
+    destruct (str_eqb ns ns') eqn:C1; cbn [andb]; [|reflexivity]. apply str_eqb_eq in C1. subst ns'.
+    destruct (hit L r' s') eqn:Hh; destruct (str_eqb sid s') eqn:C2; try reflexivity.
+    - exfalso. apply existsb_exists in Hh as (x & Hx & Hc). apply in_map_iff in Hx as (r & <- & _).
+      cbn [fst snd] in Hc. rewrite C2 in Hc. discriminate.
+    - apply str_eqb_eq in C2. subst s'.
+      destruct (mem m ns r' sid) as [e|] eqn:Em; [|reflexivity]. exfalso.
+      assert (hit L r' sid = true); [|congruence].
+      apply existsb_exists. exists (sid, r'). split.
+      + apply in_map. rewrite Hrm. eapply disc_names_complete; eauto.
+      + cbn [fst snd]. rewrite str_eqb_refl, room_refl by exact Hr'. reflexivity. }
+  split; [|split; [exact E|split; [intros _; rewrite Ec, Hc1; reflexivity|discriminate]]].
+  split.
+  - destruct HS1 as (A & B & C). unfold Struct. rewrite Er. repeat split; auto.
+    apply Ep. exact C.
+  - eapply sem_remove; eauto. intros ns' r s _ G. exact G.
+Qed.
+
+(* ---- operations that do not touch the rooms ---- *)
+Lemma pre_disconnect_wf m sid ns : WF m -> WF (fst (pre_disconnect m sid ns)).
+Proof.
+  intro H. assert (Hp : NoDup (map fst (pending m))) by apply H.
+  unfold pre_disconnect. destruct (room_of m ns PNone); cbn [fst];
+    (eapply WF_ext; [| |exact H]; cbn [rooms pending]; [reflexivity|]);
+    apply (e_nodup_aset str_eqb str_eqb_eq); exact Hp.
+Qed.
+Lemma generate_ack_id_wf m sid cb : WF m -> WF (fst (generate_ack_id m sid cb)).
+Proof.
+  intro H. assert (Hp : NoDup (map fst (pending m))) by apply H.
+  unfold generate_ack_id.
+  destruct (cb_counter _); cbn [fst]; (eapply WF_ext; [| |exact H]; cbn [rooms pending]; [reflexivity|exact Hp]).
+Qed.
+Lemma trigger_callback_wf m sid id : WF m -> WF (fst (trigger_callback m sid id)).
+Proof.
+  intro H. assert (Hp : NoDup (map fst (pending m))) by apply H.
+  unfold trigger_callback. destruct sid as [s|]; [|exact H]. destruct id as [i|]; [|exact H].
+  destruct (aget str_eqb (callbacks m) s) as [slot|]; [|exact H].
+  destruct (i <=? 0)%Z; [exact H|].
+  destruct (aget N.eqb (cb_entries slot) (Z.to_N i)); [|exact H].
+  cbn [fst]. eapply WF_ext; [| |exact H]; cbn [rooms pending]; [reflexivity|exact Hp].
+Qed.
